@@ -140,7 +140,9 @@ CHECKS = {
     text="PROOF (coq/props/C08.v): argument binding of the inlined callable (positional in input order, keywords, defaults; missing / "
          "duplicated / unknown / surplus -> TypeError; refutation of the pinned zip-truncation), type check at the boundary, declared "
          "output types; every emitted inlined block is the foreign graph under a functional renaming injective on internal names "
-         "(validated-sound), disjoint from all other names (C02). CORRESPONDENCE: binding of random calling forms vs bind_args; exact "
+         "(validated-sound), disjoint from all other names (C02); BY CONSTRUCTION (InlineDefs/InlineInj, nested induction over the "
+         "foreign graph): every definition of the block comes from a definition of the model through the renaming relation, which is a "
+         "function of the inner name and injective; block internals are reserved names or outputs of the Inline node. CORRESPONDENCE: binding of random calling forms vs bind_args; exact "
          "rendering of models built around spox-built and hand-built corner models (initializers, sparse, defaults, pass-through, "
          "subgraphs capturing outer values, empty optionals, custom domain, hostile names), once/twice/inside If/chained. ORACLE: "
          "onnxruntime on m vs on the model built around inline(m); bytes of m unchanged.",
@@ -152,7 +154,8 @@ CHECKS = {
  "C09": dict(
     text="PROOF (coq/props/C09.v): algorithmic proofs about max_opset_policy itself - exactly one import per domain (sortedness "
          "invariant of the insertion), the imported version is the maximum required for the domain and is required by something, every "
-         "requirement is covered; default domain never below 14 in a returned model; which nodes are handed to the converter (never "
+         "requirement is covered; default domain never below 14 in a returned model (validator AND by construction: "
+         "C09_default_domain_floor_by_construction, an accumulator-level invariant through compile); which nodes are handed to the converter (never "
          "another domain, never a node already at the imported version). CORRESPONDENCE: imports of model and functions (exact), set "
          "of conversion decisions (recorded by wrapping adapt_node) vs Adapt.decisions with the schema-difference table regenerated "
          "from SCHEMAS each run, full rendering when nothing is converted. ORACLE: imports recomputed from the object graph, full "
@@ -180,7 +183,9 @@ CHECKS = {
     ref="4 C13"),
  "C14": dict(
     text="PROOF (coq/props/C14.v): exactly one definition per used (domain, name) incl. functions used only in control-flow bodies or "
-         "other functions; definitions merged only if identically rendered, differing bodies rejected (fold invariant); imports cover "
+         "other functions; definitions merged only if identically rendered AND with identical attribute values inside the body, "
+         "differing bodies rejected (fold invariant); BY CONSTRUCTION every function-call node at any nesting depth has a "
+         "FunctionProto of its (domain, name) (C14_every_call_has_a_definition); imports cover "
          "body requirements; call_means_body (the FunctionProto body is a checked linearisation of the body graph, so C01's theorem "
          "applies to it, any nesting). CORRESPONDENCE: exact rendering incl. every FunctionProto. ORACLE: onnxruntime vs numpy "
          "evaluation with calls evaluated through their Python body; function keys; varying bodies must raise.",
